@@ -101,7 +101,7 @@ def gen_reconnect(rng, tier, i):
 
 
 def gen(rng, tier, i):
-    if rng.random() < 0.10:
+    if rng.random() < 0.20:
         return gen_reconnect(rng, tier, i)
     return _gen_general(rng, tier, i)
 
